@@ -271,6 +271,7 @@ impl Uci {
             UciCommand::UciNewGame => {
                 self.game = Game::new();
                 self.is_stopped.reset();
+                self.control = None;
 
                 let mut persistent_state_handle = self.persistent_state.lock().unwrap();
                 persistent_state_handle.reset();
